@@ -1,7 +1,7 @@
 //! C17 — caches stay within capacity, evict least-recently-used, never serve stale data (engine E1).
 //!
 //! * `LruMap` / `ConcurrentLruMap`: stepped against a reference LRU (one `VecDeque` recency list per shard, the
-//!   real shard function recomputed outside).  Accesses are exactly the statement's: `get` and `put`;
+//!   real shard function, learned from a probe map).  Accesses are exactly the statement's: `get` and `put`;
 //!   `contains_key`, `len`, `capacity`, `shard_sizes` are read-only observers.  Because `get` changes the
 //!   recency order it is a *mutator* of the alphabet; in addition `finish` (the object is discarded afterwards)
 //!   reads every key back and compares with the model, so every explored state is fully read out.
@@ -15,7 +15,7 @@
 use std::collections::hash_map::DefaultHasher;
 use std::collections::{BTreeMap, VecDeque};
 use std::fmt;
-use std::hash::{Hash, Hasher};
+use std::hash::Hash;
 use std::io::{Seek, SeekFrom, Write};
 use std::path::{Path, PathBuf};
 use std::sync::{Arc, Mutex};
@@ -117,13 +117,27 @@ impl MapLike for ConcurrentLruMap<u64, u64, Recorder> {
     }
 }
 
-/// The shard function of `ConcurrentLruMap` (LoadBalancingStrategy::Hash), recomputed outside:
-/// `((h >> 32) ^ h) & (shards - 1)` with `h = DefaultHasher::new()` over the key.
+/// The shard function of `ConcurrentLruMap` (LoadBalancingStrategy::Hash), *learned from the implementation*
+/// rather than recomputed: a scratch map with `shards` shards receives the single key `k`, and `shard_sizes()`
+/// says where it went.  (Today that is `((h >> 32) ^ h) & (shards - 1)` with `h = DefaultHasher::new()` over the
+/// key; a different but consistent function would be learned just as well.)  Learned once per (shards, key).
 fn hash_shard(k: u64, shards: usize) -> usize {
-    let mut h = DefaultHasher::new();
-    k.hash(&mut h);
-    let h = h.finish();
-    (((h >> 32) ^ h) as usize) & (shards - 1)
+    use std::collections::HashMap;
+    use std::sync::OnceLock;
+    static TABLE: OnceLock<Mutex<HashMap<(usize, u64), usize>>> = OnceLock::new();
+    if shards <= 1 {
+        return 0;
+    }
+    let table = TABLE.get_or_init(|| Mutex::new(HashMap::new()));
+    if let Some(s) = table.lock().unwrap_or_else(|e| e.into_inner()).get(&(shards, k)) {
+        return *s;
+    }
+    let probe = ConcurrentLruMap::<u64, u64, Recorder>::with_eviction_callback(shards, shards, Recorder::default()).expect("probe map");
+    probe.put(k, 0).expect("probe put");
+    let sizes = probe.shard_sizes();
+    let s = sizes.iter().position(|n| *n == 1).expect("the key went to exactly one shard");
+    table.lock().unwrap_or_else(|e| e.into_inner()).insert((shards, k), s);
+    s
 }
 
 #[derive(Clone, Copy, PartialEq, Eq, Debug)]
@@ -359,7 +373,7 @@ impl SeqSpec for LruSpec {
                 }
             }
             let want: Vec<usize> = st.model.shards.iter().map(|s| s.len()).collect();
-            check!(sizes == want, "shard_function_check", "shard_sizes() = {:?}, model (recomputed shard function) {:?}", sizes, want);
+            check!(sizes == want, "shard_function_check", "shard_sizes() = {:?}, model (shard function learned from a probe map) {:?}", sizes, want);
         }
         if self.sharding == Sharding::NoEvictionPossible {
             // weaker, shard-agnostic clauses only (capacity above, get in apply/finish): contains_key/len depend on the shard routing
